@@ -93,7 +93,7 @@ func drawLayout(rt *rapid.T) *Layout {
 			}
 		}
 	}
-	n := rapid.IntRange(1, 4).Draw(rt, "queries")
+	n := rapid.IntRange(1, 5).Draw(rt, "queries")
 	for i := 0; i < n; i++ {
 		lab := fmt.Sprintf("q%d", i)
 		q := Query{Output: rapid.SampledFrom([]string{"", "", "new", "existing"}).Draw(rt, lab+".output")}
@@ -106,6 +106,9 @@ func drawLayout(rt *rapid.T) *Layout {
 			q.Goarch = rapid.SampledFrom(archNames).Draw(rt, lab+".arch")
 		}
 		l.Queries = append(l.Queries, q)
+	}
+	if l.Beside.present() && n >= 2 && rapid.IntRange(0, 2).Draw(rt, "late") == 0 {
+		l.LateFrom = rapid.IntRange(1, n-1).Draw(rt, "late.from")
 	}
 	return l
 }
@@ -164,7 +167,11 @@ func judge(l *Layout, root string) (o Outcome) {
 		return
 	}
 	libexec := filepath.Join(filepath.Dir(exeDir), "libexec")
-	if err := materialiseBundle(l.Beside, exeDir); err != nil {
+	besideDir := exeDir
+	if l.LateFrom > 0 && l.Beside.present() {
+		besideDir = filepath.Join(root, "late")
+	}
+	if err := materialiseBundle(l.Beside, besideDir); err != nil {
 		o.Harness = err.Error()
 		return
 	}
@@ -190,6 +197,9 @@ func judge(l *Layout, root string) (o Outcome) {
 	spec := ChildSpec{Result: filepath.Join(root, "result.json")}
 	for i, q := range l.Queries {
 		cq := ChildQuery{Goos: q.Goos, Goarch: q.Goarch}
+		if l.LateFrom > 0 && i == l.LateFrom && l.Beside.present() {
+			cq.InstallFrom, cq.InstallTo = filepath.Join(besideDir, bundleName), filepath.Join(exeDir, bundleName)
+		}
 		switch q.Output {
 		case "new":
 			cq.Output = filepath.Join(outDir, fmt.Sprintf("agent-%d", i))
@@ -239,6 +249,14 @@ func judge(l *Layout, root string) (o Outcome) {
 	}
 	for i, q := range l.Queries {
 		a := res.Answers[i]
+		l := l
+		if l.LateFrom > 0 && i < l.LateFrom {
+			early := *l
+			early.Beside = Bundle{Kind: "absent"}
+			l = &early
+		} else if l.LateFrom > 0 && l.Beside.present() {
+			o.Classes = append(o.Classes, "query-after-the-bundle-beside-the-executable-appeared")
+		}
 		want := l.Expect(q)
 		o.Classes = append(o.Classes, "want/"+want.Kind, "output/"+q.Output)
 		if l.libexecSearched() && (l.Beside.present() || l.Libexec.present()) && want.Kind == "bytes" {
